@@ -1334,6 +1334,169 @@ fn run_ifdata_case(rep: &mut Report, case: String, doc: String, faults: Vec<&'st
     });
 }
 
+// ------------------------------------------------------------------------------------------------------------------
+// phase 4: an unquoted identifier where a string is expected (recoverable), placed at line and file boundaries.
+// In phases 1 and 2 such an identifier stands on the line of the token in front of it; here it stands (a) on a line of its
+// own, several line breaks (and comment lines) behind the previous token, and (b) as the FIRST token of an /include'd file
+// (behind 0..2 empty lines and an optional header comment). The diagnostic must name the file and line of the identifier
+// itself: a parser that raises it before the identifier is consumed names the line / file of the token in front of it.
+
+const BOUNDARY_DOC: &str = "ASAP2_VERSION 1 71\n/begin PROJECT prj \"project\"\n/begin MODULE mdl <0>\n/begin COMPU_METHOD cm \"\" IDENTICAL <1> \"unit\"\n/end COMPU_METHOD\n/begin MEASUREMENT meas <2> UBYTE cm 0 0 0 255\nFORMAT <3>\nPHYS_UNIT <4>\n/begin ANNOTATION\nANNOTATION_LABEL <5>\n/begin ANNOTATION_TEXT\n\"text\"\n/end ANNOTATION_TEXT\n/end ANNOTATION\n/end MEASUREMENT\n/end MODULE\n/end PROJECT\n";
+const BOUNDARY_SITES: [&str; 6] = ["module-long", "cm-format", "meas-long", "format", "phys-unit", "annotation-label"];
+
+#[derive(Clone, Copy, Debug, PartialEq)]
+enum Place {
+    /// on the line of the token in front of it
+    Inline,
+    /// `breaks` line breaks in front of the token; comment: 0 none, 1 a `//` line, 2 a block comment over two lines
+    OwnLine { breaks: usize, comment: u8 },
+    /// first token of an included file: comment (0 none, 1 `//` line, 2 block comment over two lines), then `pad` empty
+    /// lines, then the token, then trail (0 nothing, 1 line break, 2 blank, empty line, comment)
+    Included { pad: usize, comment: u8, trail: u8, directive_own_line: bool },
+}
+
+struct BoundaryDoc {
+    main: String,
+    incs: Vec<(String, String)>,
+    /// per faulty site in document order: include file (None: main file), line of the identifier, and whether a comment
+    /// stands directly in front of it
+    locs: Vec<(Option<String>, u32, bool)>,
+}
+
+fn lines_so_far(s: &str) -> u32 {
+    1 + s.matches('\n').count() as u32
+}
+
+/// choices: (site, place, faulty); sites that are not named get their string on the line of the previous token
+fn boundary_doc(choices: &[(usize, Place, bool)]) -> BoundaryDoc {
+    let mut d = BoundaryDoc { main: String::new(), incs: vec![], locs: vec![] };
+    let mut rest = BOUNDARY_DOC;
+    for site in 0..BOUNDARY_SITES.len() {
+        let mark = format!("<{site}>");
+        let p = rest.find(&mark).expect("placeholder");
+        d.main.push_str(&rest[..p]);
+        rest = &rest[p + mark.len()..];
+        let (place, faulty) = choices.iter().find(|c| c.0 == site).map(|c| (c.1, c.2)).unwrap_or((Place::Inline, false));
+        // the valid string contains a blank: it could not be written without quotes
+        let token = if faulty { format!("ident_{site}") } else { format!("\"str {site}\"") };
+        let comment_text = |c: u8| match c {
+            1 => "// a comment line\n",
+            2 => "/* a comment\n   over two lines */\n",
+            _ => "",
+        };
+        match place {
+            Place::Inline => {
+                if faulty {
+                    d.locs.push((None, lines_so_far(&d.main), false));
+                }
+                d.main.push_str(&token);
+            }
+            Place::OwnLine { breaks, comment } => {
+                d.main.push('\n');
+                d.main.push_str(comment_text(comment));
+                for _ in 1..breaks {
+                    d.main.push('\n');
+                }
+                if faulty {
+                    d.locs.push((None, lines_so_far(&d.main), comment != 0));
+                }
+                d.main.push_str(&token);
+                d.main.push('\n');
+            }
+            Place::Included { pad, comment, trail, directive_own_line } => {
+                let name = format!("s{site}.a2l");
+                if directive_own_line {
+                    d.main.push_str(&format!("\n/include \"{name}\"\n"));
+                } else {
+                    d.main.push_str(&format!("/include \"{name}\""));
+                }
+                let mut inc = String::from(comment_text(comment));
+                for _ in 0..pad {
+                    inc.push('\n');
+                }
+                if faulty {
+                    d.locs.push((Some(name.clone()), lines_so_far(&inc), comment != 0));
+                }
+                inc.push_str(&token);
+                inc.push_str(match trail {
+                    1 => "\n",
+                    2 => " \n\n// end of the included file\n",
+                    _ => "",
+                });
+                d.incs.push((name, inc));
+            }
+        }
+    }
+    d.main.push_str(rest);
+    d
+}
+
+fn run_boundary_case(rep: &mut Report, dir: &std::path::Path, case: String, choices: &[(usize, Place, bool)]) {
+    let main_path = dir.join("main.a2l");
+    let main_name = main_path.to_string_lossy().to_string();
+    let d = boundary_doc(choices);
+    // CANDIDATE-FINDING C06-F4: the tolerance "identifier in place of a string" is not applied if a comment stands directly
+    // in front of the identifier (get_string peeks at the comment token): `/begin MODULE mdl /* c */ ident_0` fails in
+    // non-strict mode too, with the same diagnostic as a hard error. Exactly this is carved out: such a site is expected as a
+    // hard error of both modes - at the location of the identifier, which is still checked.
+    let mut exps: Vec<Exp> = Vec::new();
+    let mut hard = false;
+    for (file, line, after_comment) in &d.locs {
+        exps.push(Exp { kind: "UnexpectedTokenType", tag: None, file: Some(file.clone().unwrap_or_else(|| main_name.clone())), line: Some(*line), deprecation: false, strict_kind: None });
+        if *after_comment {
+            hard = true;
+            break;
+        }
+    }
+    let mut input = d.main.clone();
+    for (name, text) in &d.incs {
+        input.push_str(&format!("\n=== {name} ===\n"));
+        input.push_str(text);
+    }
+    let dir = dir.to_path_buf();
+    let case2 = case.clone();
+    rep.run(&case, &input, move || {
+        let io = |e: std::io::Error| Fail { case: case2.clone(), expected: "temp file".into(), happened: e.to_string() };
+        std::fs::write(&main_path, &d.main).map_err(io)?;
+        for (name, text) in &d.incs {
+            std::fs::write(dir.join(name), text).map_err(io)?;
+        }
+        let strict = a2lfile::load(&main_path, None, true);
+        let nonstrict = a2lfile::load(&main_path, None, false);
+        check_expected(&case2, &strict, &nonstrict, &exps, hard)?;
+        check_relations(&case2, &strict, &nonstrict, false)?;
+        if d.incs.is_empty() {
+            let s2 = a2lfile::load_from_string(&d.main, None, true);
+            let n2 = a2lfile::load_from_string(&d.main, None, false);
+            let exps2: Vec<Exp> = exps.iter().map(|e| Exp { file: Some(String::new()), ..e.clone() }).collect();
+            check_expected(&format!("{case2}/from-string"), &s2, &n2, &exps2, hard)?;
+        }
+        Ok(())
+    });
+}
+
+fn boundary_places() -> Vec<(String, Place)> {
+    let mut v = vec![("inline".to_string(), Place::Inline)];
+    for breaks in 1..=4 {
+        for comment in 0..=2u8 {
+            v.push((format!("own-line-b{breaks}c{comment}"), Place::OwnLine { breaks, comment }));
+        }
+    }
+    for pad in 0..=2 {
+        for comment in 0..=2u8 {
+            for trail in 0..=2u8 {
+                for directive_own_line in [false, true] {
+                    v.push((
+                        format!("included-p{pad}c{comment}t{trail}{}", if directive_own_line { "o" } else { "i" }),
+                        Place::Included { pad, comment, trail, directive_own_line },
+                    ));
+                }
+            }
+        }
+    }
+    v
+}
+
 #[test]
 fn vf_driver_c06() {
     println!();
@@ -1424,15 +1587,58 @@ fn vf_driver_c06() {
         }
     }
 
+    let n3 = rep.cases - n1 - n1b - n2;
+
+    // ---- phase 4: unquoted identifier in place of a string on a line of its own / as first token of an included file
+    {
+        let places = boundary_places();
+        // every site x every placement, faulty and valid
+        for (si, site) in BOUNDARY_SITES.iter().enumerate() {
+            for (pname, place) in &places {
+                for faulty in [true, false] {
+                    run_boundary_case(&mut rep, &dir, format!("p4/{site}/{pname}/{}", if faulty { "ident" } else { "valid" }), &[(si, *place, faulty)]);
+                }
+            }
+        }
+        // two faulty sites in one document: two warnings in document order, strict fails at the first one
+        let inc0 = Place::Included { pad: 0, comment: 0, trail: 0, directive_own_line: false };
+        let inc2 = Place::Included { pad: 2, comment: 2, trail: 1, directive_own_line: true };
+        let own2 = Place::OwnLine { breaks: 2, comment: 0 };
+        let own3 = Place::OwnLine { breaks: 3, comment: 1 };
+        for a in 0..BOUNDARY_SITES.len() {
+            for b in a + 1..BOUNDARY_SITES.len() {
+                for (k, (pa, pb)) in [(inc0, own2), (own3, inc2), (inc2, inc0), (own2, own3)].iter().enumerate() {
+                    run_boundary_case(&mut rep, &dir, format!("p4/pair/{}+{}/v{k}", BOUNDARY_SITES[a], BOUNDARY_SITES[b]), &[(a, *pa, true), (b, *pb, true)]);
+                }
+            }
+        }
+        // random combinations
+        let n = if thorough { 20000 } else { 150 };
+        for r in 0..n {
+            if start.elapsed() > Duration::from_secs(if thorough { 290 } else { 40 }) {
+                break;
+            }
+            let mut choices = Vec::new();
+            for si in 0..BOUNDARY_SITES.len() {
+                if rng.chance(50) {
+                    let (_, place) = &places[rng.below(places.len())];
+                    choices.push((si, *place, rng.chance(60)));
+                }
+            }
+            run_boundary_case(&mut rep, &dir, format!("p4/random/r{r}"), &choices);
+        }
+    }
+
     let _ = std::fs::remove_dir_all(&dir);
     println!(
-        "phase1 {} cases + phase1b {} cases {:?}, phase2 {} cases {:?}, phase3 {} cases, total {:?}",
+        "phase1 {} cases + phase1b {} cases {:?}, phase2 {} cases {:?}, phase3 {} cases, phase4 {} cases, total {:?}",
         n1,
         n1b,
         t1,
         n2,
         t2 - t1,
-        rep.cases - n1 - n1b - n2,
+        n3,
+        rep.cases - n1 - n1b - n2 - n3,
         start.elapsed()
     );
     rep.finish();
